@@ -142,6 +142,17 @@ impl Connection {
         }
     }
     
+    /// Whether the peer has closed the connection and nothing is left to read.  Used for
+    /// connections that are not read from while they are blocked.
+    pub fn peer_has_closed(&self) -> bool {
+        let mut probe = [0u8; 1];
+        match self.stream.peek(&mut probe) {
+            Ok(0) => true,
+            Ok(_) => false,
+            Err(e) => !matches!(e.kind(), ErrorKind::WouldBlock | ErrorKind::Interrupted),
+        }
+    }
+    
     /// Try to parse a frame from the read buffer
     pub fn parse_frame(&mut self) -> Result<Option<RespFrame>> {
         self.parser.parse()
